@@ -245,12 +245,46 @@ func genCore(t *rapid.T) coreScenario {
 	return sc
 }
 
+// lifecycleCtx is a hand-written context.Context (legal, and common for application lifecycles). The standard library
+// cannot hook into it, so whatever watches it for cancellation does so with a goroutine, which must be released.
+type lifecycleCtx struct{ done chan struct{} }
+
+func newLifecycleCtx() (*lifecycleCtx, func()) {
+	c := &lifecycleCtx{done: make(chan struct{})}
+	var once sync.Once
+	return c, func() { once.Do(func() { close(c.done) }) }
+}
+func (c *lifecycleCtx) Deadline() (time.Time, bool) { return time.Time{}, false }
+func (c *lifecycleCtx) Done() <-chan struct{}       { return c.done }
+func (c *lifecycleCtx) Err() error {
+	select {
+	case <-c.done:
+		return context.Canceled
+	default:
+		return nil
+	}
+}
+func (c *lifecycleCtx) Value(any) any { return nil }
+
+// d12Trigger: known finding D12 (KNOWN_FINDINGS.txt). The child contexts the library derives for async executions, for
+// Timeout applications and for hedge attempts are not released on the normal path; with a parent that is not a standard
+// library context each of them keeps a watcher goroutine until the parent ends. Excluded by construction: a hand-written
+// executor context is only combined with stacks that derive no such child context.
+func d12Trigger(stack []string) bool {
+	for _, k := range stack {
+		if k == "timeout" || k == "hedge-real" || k == "hedge-1h" {
+			return true
+		}
+	}
+	return false
+}
+
 // ---------------------------------------------------------------------------------------------------------------------
 // HTTP scenarios: a private transport per scenario; retried responses, hedged losers, merged contexts
 
 type httpScenario struct {
 	ReqCtx   string   `json:"req_ctx"`  // background cancellable values
-	ExecCtx  string   `json:"exec_ctx"` // none cancellable
+	ExecCtx  string   `json:"exec_ctx"` // none cancellable custom (a hand-written context.Context)
 	Stack    []string `json:"stack"`    // retry timeout hedge-real
 	Statuses []int    `json:"statuses"` // per attempt
 	RespSize int      `json:"resp_size"`
@@ -297,8 +331,13 @@ func runHTTP(sc httpScenario) (cleanup func()) {
 		}
 		ex := failsafe.NewExecutor[*http.Response](pols...)
 		execCtx, cancelExec := context.WithCancel(context.Background())
-		if sc.ExecCtx == "cancellable" {
+		switch sc.ExecCtx {
+		case "cancellable":
 			ex = ex.WithContext(execCtx)
+		case "custom":
+			lc, end := newLifecycleCtx()
+			ex = ex.WithContext(lc)
+			cancels = append(cancels, end)
 		}
 		reqCtx := context.Background()
 		var cancelReq context.CancelFunc = func() {}
@@ -350,7 +389,7 @@ func runHTTP(sc httpScenario) (cleanup func()) {
 func genHTTP(t *rapid.T) httpScenario {
 	sc := httpScenario{
 		ReqCtx:   rapid.SampledFrom([]string{"background", "cancellable", "values"}).Draw(t, "reqCtx"),
-		ExecCtx:  rapid.SampledFrom([]string{"none", "cancellable"}).Draw(t, "execCtx"),
+		ExecCtx:  rapid.SampledFrom([]string{"none", "cancellable", "custom"}).Draw(t, "execCtx"),
 		RespSize: rapid.SampledFrom([]int{0, 10, 5000}).Draw(t, "respSize"),
 		ReadBody: rapid.Bool().Draw(t, "readBody"),
 		Via:      rapid.SampledFrom([]string{"roundtripper", "request"}).Draw(t, "via"),
@@ -404,8 +443,13 @@ func runGRPC(sc grpcScenario) (cleanup func()) {
 		ex := failsafe.NewExecutor[any](pols...)
 		execCtx, cancelExec := context.WithCancel(context.Background())
 		cancels = append(cancels, cancelExec)
-		if sc.ExecCtx == "cancellable" {
+		switch sc.ExecCtx {
+		case "cancellable":
 			ex = ex.WithContext(execCtx)
+		case "custom":
+			lc, end := newLifecycleCtx()
+			ex = ex.WithContext(lc)
+			cancels = append(cancels, end)
 		}
 		callCtx := context.Background()
 		if sc.CallCtx == "cancellable" {
@@ -468,6 +512,10 @@ func TestLeaks(t *testing.T) {
 			sc, nt = c, c.Entry != "sync" || contains(c.Stack, "hedge-real") || contains(c.Stack, "hedge-custom") || contains(c.Stack, "timeout-fires") || contains(c.Stack, "timeout-never") || contains(c.Stack, "retry-delay")
 		case "http":
 			h := genHTTP(t)
+			if h.ExecCtx == "custom" && d12Trigger(h.Stack) {
+				h.ExecCtx = "cancellable"
+				st.Count("excluded_known_D12", 1)
+			}
 			cleanup = runHTTP(h)
 			sc = h
 			retried := false
@@ -477,12 +525,16 @@ func TestLeaks(t *testing.T) {
 			nt = (contains(h.Stack, "retry") && retried) || contains(h.Stack, "hedge-real") || ((contains(h.Stack, "timeout") || h.ExecCtx != "none") && h.ReqCtx != "background")
 		case "grpc":
 			g := grpcScenario{Side: rapid.SampledFrom([]string{"client", "server"}).Draw(t, "side"), CallCtx: rapid.SampledFrom([]string{"background", "cancellable"}).Draw(t, "callCtx"),
-				ExecCtx: rapid.SampledFrom([]string{"none", "cancellable"}).Draw(t, "execCtx"), Reps: rapid.IntRange(5, 40).Draw(t, "reps")}
+				ExecCtx: rapid.SampledFrom([]string{"none", "cancellable", "custom"}).Draw(t, "execCtx"), Reps: rapid.IntRange(5, 40).Draw(t, "reps")}
 			for i, n := 0, rapid.IntRange(0, 2).Draw(t, "nPols"); i < n; i++ {
 				k := rapid.SampledFrom([]string{"timeout", "hedge-1h", "retry"}).Draw(t, "pol")
 				if !contains(g.Stack, k) {
 					g.Stack = append(g.Stack, k)
 				}
+			}
+			if g.ExecCtx == "custom" && d12Trigger(g.Stack) {
+				g.ExecCtx = "cancellable"
+				st.Count("excluded_known_D12", 1)
 			}
 			cleanup = runGRPC(g)
 			sc, nt = g, (len(g.Stack) > 0 || g.ExecCtx != "none") && g.CallCtx != "background"
@@ -511,6 +563,40 @@ func TestLeaks(t *testing.T) {
 			st.Sample(kind+string(b), func() any { return map[string]any{"kind": kind, "scenario": sc} })
 		}
 	})
+}
+
+// TestKnownFindingD12 reproduces the open finding so that the evidence says whether it is still there.
+func TestKnownFindingD12(t *testing.T) {
+	st := harness.NewStats("TestKnownFindingD12")
+	defer st.Flush()
+	grew := map[string]int{}
+	for name, f := range map[string]func(ctx context.Context){
+		"async": func(ctx context.Context) {
+			failsafe.NewExecutor[int]().WithContext(ctx).GetAsync(func() (int, error) { return 1, nil }).Get()
+		},
+		"timeout-not-fired": func(ctx context.Context) {
+			failsafe.NewExecutor[int](timeout.With[int](time.Hour)).WithContext(ctx).Get(func() (int, error) { return 1, nil })
+		},
+		"hedge-winner": func(ctx context.Context) {
+			failsafe.NewExecutor[int](hedgepolicy.WithDelay[int](time.Hour)).WithContext(ctx).Get(func() (int, error) { return 1, nil })
+		},
+	} {
+		lc, end := newLifecycleCtx()
+		_, _, before := settle()
+		for i := 0; i < 30; i++ {
+			f(lc)
+		}
+		time.Sleep(50 * time.Millisecond)
+		_, _, after := leftovers()
+		grew[name] = after - before
+		end()
+		settle()
+		st.Count("d12_goroutines_left_after_30_"+name, after-before)
+	}
+	st.Case("d12", true, "known-finding-D12")
+	st.Case("d12b", true, "known-finding-D12")
+	st.Sample("d12", func() any { return grew })
+	t.Logf("D12: goroutines left after 30 executions under a hand-written parent context: %v", grew)
 }
 
 func TestRegress(t *testing.T) {
